@@ -147,8 +147,11 @@ def _post_shutdown(cls_name):
                 cl.append(("only the delegate's own shutdown() error can escape", "EX", out.exc.t == ev.exc if ev.exc is not None else False, ["C18"]))
                 return cl
             if event_f:
-                cl.append(("W1: the worker thread is woken so that it observes the flag at once", "WK",
-                           z3.And(z3.BoolVal(len(sets) >= 1), sets[0][1].recv == Val.id(st.get(event_f, sid)) if sets else False), ["C11", "C03", "C12"]))
+                flagw = [i for i, e in enumerate(st.trace) if e.kind == "write" and e.meth == "is_shutdown"]
+                after = [(i, e) for i, e in sets if flagw and i > flagw[-1]]
+                cl.append(("W1: the worker thread is woken AFTER the flag was set, so that it observes the flag at once (a wake-up before the flag is lost: the "
+                           "worker clears it, sees no flag, and sleeps for good - shutdown(wait=True) then never returns)", "WK",
+                           z3.And(z3.BoolVal(len(after) >= 1), after[0][1].recv == Val.id(st.get(event_f, sid)) if after else False), ["C11", "C03", "C12", "C04"]))
             if thread_f:
                 waited = decided(engine, st, qn, "{$param#1|wait}", True)
                 nowait = decided(engine, st, qn, "{$param#1|wait}", False)
